@@ -307,6 +307,22 @@ def pure(case, ctx):
         ctx.case(nontrivial=True, classes=["fail:" + op], ident=["fail", op, seed, n, case["sa"], i])
         ctx.check(rf != 1, "%s reports success (ret=%d) although entropy draw %d of %d failed; output %s" % (op, rf, i, D1, of[:48].hex()),
                   "fail-open/%s/draw%d" % (op, i if i < 3 else 3))
+    # the other way a source fails: interrupted (EINTR) for a while - draws #i .. #i+K-1 fail, then the source works again (a failing draw
+    # consumes nothing of the stream).  An implementation may give up (return != 1) or retry; if it reports success, what it produced must be
+    # what the undisturbed stream produces - success built on bytes it never received is the violation.
+    import errno as _errno
+    for i in sorted({0, D1 - 1, (case["sa"] % D1) if D1 else 0}):
+        if i < 0 or i >= min(D1, 80):
+            continue
+        for K in (1, 40):
+            try:
+                sh.stream(case["sa"]); sh.fail_at(i, err=_errno.EINTR, count=K)
+                rf, of = _call(l, op, seed, n)
+            finally:
+                sh.reset()
+            ctx.case(nontrivial=True, classes=["fail-EINTRx%d:%s" % (K, op), "eintr:" + ("gave-up" if rf != 1 else "retried")], ident=["fail-eintr", K, op, seed, n, case["sa"], i])
+            ctx.check(rf != 1 or of == o1, "%s reports success (ret=%d) after entropy draws #%d..#%d failed with EINTR, and its output differs from the output on the "
+                      "undisturbed stream: it used bytes it never received; output %s" % (op, rf, i, i + K - 1, of[:48].hex()), "fail-open/%s/EINTR" % op)
 
 
 # ---------------------------------------------------------------------------
